@@ -520,9 +520,15 @@ func (vc *VC) mergeEdges(fr *Frame, b *ssa.BasicBlock, in []edgeIn) (*State, str
 		}
 		if !live {
 			delete(st.locals, c)
+			if st.addrs != nil {
+				delete(st.addrs, c)
+			}
 			continue
 		}
 		if !same {
+			if st.addrs != nil {
+				delete(st.addrs, c)
+			}
 			j := vc.fresh("j_"+c.Name, vc.S.sortOf(c.T))
 			var ts []string
 			for _, e := range in {
@@ -731,6 +737,9 @@ func (vc *VC) loopHead(fr *Frame, li *loopInfo, st *State, reach string) *State 
 	for _, c := range cells {
 		if _, ok := n.locals[c]; ok {
 			n.locals[c] = vc.fresh("lh_"+c.Name, vc.S.sortOf(c.T))
+			if n.addrs != nil {
+				delete(n.addrs, c)
+			}
 			vc.assumeTypeFactsLater(n, c.T, n.locals[c])
 		}
 	}
@@ -1094,6 +1103,20 @@ func (vc *VC) execInstr(fr *Frame, st *State, reach string, instr ssa.Instructio
 	case *ssa.Store:
 		pv := vc.operand(fr, x.Addr)
 		v := vc.operand(fr, x.Val)
+		if pv.A != nil && pv.A.Kind == aLocal && len(pv.A.Path) == 0 {
+			// a local variable that holds an interior pointer (g := &o.GlobalConfig): keep the address symbolically
+			if v.S == "" && v.A != nil && (v.A.Kind != aHeap || len(v.A.Path) > 0) {
+				if st.addrs == nil {
+					st.addrs = map[*Cell]*Addr{}
+				}
+				st.addrs[pv.A.Cell] = v.A
+				st.locals[pv.A.Cell] = vc.fresh("iptr_"+pv.A.Cell.Name, "Int")
+				return
+			}
+			if st.addrs != nil {
+				delete(st.addrs, pv.A.Cell)
+			}
+		}
 		vc.nilCheck(fr, reach, pv, x)
 		vc.frameCheck(fr, st, reach, vc.addrOf(pv), x)
 		vc.store(st, pv, vc.valTerm(v))
@@ -1361,6 +1384,12 @@ func (vc *VC) execUnOp(fr *Frame, st *State, reach string, x *ssa.UnOp) {
 	switch x.Op {
 	case token.MUL:
 		pv := vc.operand(fr, x.X)
+		if pv.A != nil && pv.A.Kind == aLocal && len(pv.A.Path) == 0 && st.addrs != nil {
+			if ia, ok := st.addrs[pv.A.Cell]; ok {
+				fr.regs[x] = Val{T: x.Type(), A: ia}
+				return
+			}
+		}
 		vc.nilCheck(fr, reach, pv, x)
 		v := vc.load(st, pv, fr, reach)
 		a := vc.addrOf(pv)
